@@ -1,22 +1,22 @@
 #!/bin/sh
 # usage: tools/confirm3.sh Cxx   — confirm both round-3 seeds of a property in the sub-agent's worktree /tmp/seed-Cxx-3
 # (demo passes without / fails with the change; workspace builds; all stable baseline tests pass with the change).
-P=$1; W=/tmp/seed-$P-3
+R=${R:-3}; P=$1; W=/tmp/seed-$P-$R
 cd $W || exit 2
 export CARGO_NET_OFFLINE=true
 for lx in a b; do
-  D=/verif/seeded/$P-3$lx
+  D=/verif/seeded/$P-$R$lx
   [ -f $D/patch.diff ] || continue
   PATCH=$D/patch.diff; for o in $D/patch.orig-*.diff; do [ -f "$o" ] && PATCH=$o; done
   git reset -q --hard HEAD; git clean -q -fd -e target
-  git apply $D/demo.diff || { echo "$P-3$lx: demo.diff does not apply"; continue; }
+  git apply $D/demo.diff || { echo "$P-$R$lx: demo.diff does not apply"; continue; }
   MOD=$(grep -ho "mod [a-z_0-9]*seeded[a-z_0-9]*" $D/demo.diff | head -1 | awk '{print $2}'); [ -z "$MOD" ] && MOD=seeded
   R1=$(cargo test --offline -p ${PKG:-gneiss-mqtt} --features ${FEATURES:-testing,tokio,threaded} --lib $MOD 2>&1 | grep "^test result" | head -1)
-  echo "##### $P-3$lx ($MOD) demo WITHOUT change: $R1"
-  git apply $PATCH || { echo "$P-3$lx: patch does not apply"; continue; }
+  echo "##### $P-$R$lx ($MOD) demo WITHOUT change: $R1"
+  git apply $PATCH || { echo "$P-$R$lx: patch does not apply"; continue; }
   cargo build --workspace --offline 2>&1 | tail -1
   R2=$(cargo test --offline -p ${PKG:-gneiss-mqtt} --features ${FEATURES:-testing,tokio,threaded} --lib $MOD 2>&1 | grep "^test result" | head -1)
-  echo "##### $P-3$lx demo WITH change:    $R2"
+  echo "##### $P-$R$lx demo WITH change:    $R2"
   git apply -R $D/demo.diff
   /verif/tools/baseline_check.sh $W | head -4
 done
